@@ -12,7 +12,7 @@ from . import core, gem, trajsc
 from .core import Outcome, PropertySpec
 
 PID = 'C13'
-MODULES = ['GProofs.C01', 'GProofs.C15', 'GProofs.C13']
+MODULES = ['GProofs.C01', 'GProofs.C15', 'GProofs.C13', 'GProofs.C13Rigid']
 
 
 def gen_case(rng):
